@@ -485,3 +485,54 @@ v("C09", "swapRanks-tuple-style", "fire", F,
 v("C09", "silent-updateCoords-while", "silent", F,
   "        for i in range(len(self.coords)):\n            new_coord = func(i, self.coords[i], self.payloads[i])",
   "        for i in range(0, len(self.coords)):\n            new_coord = func(i, self.coords[i], self.payloads[i])")
+
+# ---------------------------------------------------------------- C14
+v("C14", "split-drops-default", "fire", T,
+  "        tensor.setName(self.getName() + \"+split\")\n        tensor.setColor(self.getColor())\n        tensor.setMutable(self.isMutable())\n        tensor.setDefault(self.getDefault())",
+  "        tensor.setName(self.getName() + \"+split\")\n        tensor.setColor(self.getColor())\n        tensor.setMutable(self.isMutable())", "C14.R1")
+v("C14", "flatten-drops-mutable", "fire", T,
+  "        tensor.setName(self.getName() + \"+flattened\")\n        tensor.setColor(self.getColor())\n        tensor.setMutable(self.isMutable())",
+  "        tensor.setName(self.getName() + \"+flattened\")\n        tensor.setColor(self.getColor())", "C14.R1")
+v("C14", "merge-drops-formats", "fire", T,
+  "        tensor.setName(self.getName() + \"+merged\")", "        return tensor\n        tensor.setName(self.getName() + \"+merged\")", "C14.R1")
+v("C14", "swap-formats-all-C", "fire", T,
+  "        for rank_id in tensor.getRankIds():\n            tensor.setFormat(rank_id, self.getFormat(rank_id))\n\n        return tensor\n",
+  "        for rank_id in tensor.getRankIds():\n            tensor.setFormat(rank_id, \"C\")\n\n        return tensor\n", "C14.R1")
+v("C14", "swizzle-drops-color", "fire", T,
+  "                  \"fiber\": root,\n                  \"color\": self.getColor()\n", "                  \"fiber\": root\n", "C14.R1")
+v("C14", "swap-shape-none", "fire", T,
+  "        shape = copy.deepcopy(self.getShape(authoritative=True))\n        if shape:\n            shape[depth], shape[depth + 1] = shape[depth + 1], shape[depth]",
+  "        shape = None", "C14.R1")
+v("C14", "split-shape-estimated", "fire", T,
+  "        shape = copy.deepcopy(self.getShape(authoritative=True))\n        if shape:\n            shape.insert(depth + 1, shape[depth])",
+  "        shape = copy.deepcopy(self.getShape())\n        if shape:\n            shape.insert(depth + 1, shape[depth])", "C14.R1")
+v("C14", "split-rename-swapped", "fire", T,
+  "        rank_ids[depth] = f\"{id}.1\"\n        rank_ids.insert(depth + 1, f\"{id}.0\")",
+  "        rank_ids[depth] = f\"{id}.0\"\n        rank_ids.insert(depth + 1, f\"{id}.1\")", "C14.R1")
+v("C14", "and-active-from-other", "fire", I,
+  "    fiber = self.fromIterator(and_iterator, active_range=self.getActive())",
+  "    fiber = self.fromIterator(and_iterator, active_range=other.getActive())", "C14.R2")
+v("C14", "or-id-from-other", "fire", I,
+  "    result._setDefault((\"\", self.getDefault(), other.getDefault()))\n    result.getRankAttrs().setId(self.getRankAttrs().getId())\n\n    return result\n\n\ndef __xor__",
+  "    result._setDefault((\"\", self.getDefault(), other.getDefault()))\n    result.getRankAttrs().setId(other.getRankAttrs().getId())\n\n    return result\n\n\ndef __xor__", "C14.R2")
+v("C14", "sub-no-default", "fire", I,
+  "    result._setDefault(self.getDefault())\n    result.getRankAttrs().setId(self.getRankAttrs().getId())\n\n    return result\n",
+  "    result.getRankAttrs().setId(self.getRankAttrs().getId())\n\n    return result\n", "C14.R2")
+v("C14", "union-default-no-mask-slot", "fire", I,
+  "    fiber._setDefault(tuple([\"\"]+[arg.getDefault() for arg in args]))",
+  "    fiber._setDefault(tuple([arg.getDefault() for arg in args]))", "C14.R2")
+v("C14", "project-open-end", "fire", F,
+  "            max_ = Fiber._transCoord(max(start, end), lambda c: c + 1)",
+  "            max_ = Fiber._transCoord(max(start, end), lambda c: c)", "C14.R2")
+v("C14", "coiter-active-shape", "fire", I,
+  "    fiber = fibers[0].fromIterator(coiter_range_shape_iterator, active_range=(start, end))",
+  "    fiber = fibers[0].fromIterator(coiter_range_shape_iterator, active_range=fibers[0].getActive())", "C14.R2")
+v("C14", "getDefault-ignores-owner", "fire", F,
+  "        owner = self.getOwner()\n\n        if owner is not None:\n            return owner.getDefault()\n",
+  "        owner = None\n\n        if owner is not None:\n            return owner.getDefault()\n", "C14.R3")
+v("C14", "rank-getShape-estimated-authoritative", "fire", R,
+  "            if authoritative and self._attrs.getEstimatedShape():\n                #\n                # We do not know the shape authoritatively\n                #\n                return None\n",
+  "", "C14.R4")
+v("C14", "silent-flatten-reorder-setters", "silent", T,
+  "        tensor.setName(self.getName() + \"+flattened\")\n        tensor.setColor(self.getColor())\n        tensor.setMutable(self.isMutable())\n        tensor.setDefault(self.getDefault())",
+  "        tensor.setDefault(self.getDefault())\n        tensor.setMutable(self.isMutable())\n        tensor.setColor(self.getColor())\n        tensor.setName(self.getName() + \"+flattened\")")
